@@ -94,6 +94,11 @@ impl Scenario for C09 {
         if d > 10_000 {
             dts.push(3600);
         }
+        if d > 50_000_000 {
+            // well over a year, still short of the delay: whatever remembers the last rotation must
+            // still be there (no temporary entry survives this jump)
+            dts.push(40_000_000);
+        }
         let mut v: Vec<Act> = vec![Act::Rotate, Act::Bypass];
         v.extend(dts.into_iter().map(Act::Advance));
         v.extend([Act::RotateInstalledSet, Act::RotateBadProof, Act::BypassNoAuth, Act::BypassStrangerAuth]);
@@ -110,8 +115,8 @@ impl Scenario for C09 {
             out.kind = "advance";
             out.accepted = true;
             w.set_time(w.now() + dt);
-            // ledgers pass too (more than the minimum temporary-entry TTL)
-            w.set_seq(w.seq() + 20);
+            // ledgers pass too: one per 5 s, at least 20 (more than the minimum temporary-entry TTL)
+            w.set_seq(w.seq() + (*dt / 5).clamp(20, 8_000_000) as u32);
             m.now += dt;
             return;
         }
@@ -179,7 +184,7 @@ fn main() {
     main_for(|tier| {
         let thorough = tier == "thorough";
         let mut cfgs = vec![];
-        for d in [0u64, 1, 5, 1000, 1 << 32, (1 << 32) + 5, u64::MAX] {
+        for d in [0u64, 1, 5, 1000, 1_000_000_000, 1 << 32, (1 << 32) + 5, u64::MAX] {
             for t0 in [0u64, 100, 1_700_000_000] {
                 cfgs.push((d, t0));
             }
@@ -187,7 +192,7 @@ fn main() {
         let s = C09 { cfgs };
         let mut o = Opts::new(tier, if thorough { 12 } else { 6 });
         o.min_depth = 4;
-        o.rule = "minimum delay in {0,1,5,1000,2^32,2^32+5,u64::MAX} x deployment time in {0,100,1.7e9}; all sequences over {advance 1 / delay-1 / delay / delay+1 seconds, non-bypass rotation with an honest proof, non-bypass rotation to an already-installed set, non-bypass rotation with a proof for another candidate, bypass with operator / nobody / stranger authorising, bypass with a proof from the previous retained set with and without the operator} up to depth 6 (quick) / 9 (thorough); model: last successful rotation time (deployment counts)".into();
+        o.rule = "minimum delay in {0,1,5,1000,1e9 (less than the ledger time of a deployment today, more than any jump),2^32,2^32+5,u64::MAX} x deployment time in {0,100,1.7e9}; all sequences over {advance 1 / delay-1 / delay / delay+1 seconds (ledgers pass at one per 5 s; for the huge delays also 3600 s and 4e7 s = 463 days), non-bypass rotation with an honest proof, non-bypass rotation to an already-installed set, non-bypass rotation with a proof for another candidate, bypass with operator / nobody / stranger authorising, bypass with a proof from the previous retained set with and without the operator} up to depth 6 (quick) / 9 (thorough); model: last successful rotation time (deployment counts)".into();
         (s, o)
     });
 }
